@@ -23,6 +23,7 @@ import (
 
 	"github.com/tsuna/gohbase/hrpc"
 	"github.com/tsuna/gohbase/internal/verifsim"
+	"github.com/tsuna/gohbase/pb"
 )
 
 type c01Case struct {
@@ -181,6 +182,11 @@ func TestVerifC01(t *testing.T) {
 	if err != nil {
 		t.Fatal(err)
 	}
+	mvj, err := verifsim.NewNDJSON(out + "/c01_move_trace.ndjson") // class M: what the servers saw, for Trace_Move
+	if err != nil {
+		t.Fatal(err)
+	}
+	defer mvj.Close()
 	rep := &simReport{}
 	simOnStall("c01_result.json", rep)
 	defer func() {
@@ -377,6 +383,132 @@ func TestVerifC01(t *testing.T) {
 					rep.Distinct++
 				})
 			}
+		}
+	}
+	// ---- M: a region is moved to another regionserver while the old one stays up (balancer / "move"): same region name,
+	// new address in hbase:meta, no connection is lost. The first request afterwards may reach the old server once (the
+	// location is stale, "not serving"); once the region has been looked up again, every request for its keys is sent to
+	// the server that hosts it now - "the regionserver it is sent to is that region's".
+	for oi, op := range c01ops {
+		for back := 0; back < 3; back++ { // (back=1: moved again, to the server it was on at first; back=2: moved on while it is being probed)
+			name := fmt.Sprintf("region-moved-while-its-old-server-stays-up/%s/and-back=%v", op, back == 1)
+			if back == 2 {
+				name = fmt.Sprintf("region-moved-while-its-old-server-stays-up/%s/and-on-while-it-is-probed", op)
+			}
+			verifsim.Bubble(t, func(t *testing.T) {
+				tr := &verifsim.Trace{}
+				cl := verifsim.NewCluster(tr)
+				for _, h := range hosts {
+					cl.AddServer(h)
+				}
+				regs := cl.CreateTable("t", [][]byte{[]byte("g"), []byte("p")}, hosts)
+				c := newSimClient(cl, RpcQueueSize(1+oi%3))
+				for _, r := range regs { // every region and every server is in use
+					c01do(c, "get", "t", append(append([]byte{}, r.Start...), 'w'), nil)
+				}
+				synctest.Wait()
+				reg := regs[1]
+				key, key2 := []byte("h"), []byte("i")
+				targets := []string{hosts[2]}
+				if back == 1 {
+					targets = append(targets, hosts[1])
+				}
+				var mvm sync.Mutex
+				mv := func(ev string, kv ...any) {
+					m := map[string]any{"ev": ev, "scenario": name}
+					for k := 0; k+1 < len(kv); k += 2 {
+						m[kv[k].(string)] = kv[k+1]
+					}
+					mvm.Lock()
+					mvj.Write(m)
+					mvm.Unlock()
+				}
+				mv("reset", "srv", reg.Host)
+				for mi, to := range targets {
+					var stale atomic.Int32
+					var cancelCur atomic.Pointer[context.CancelFunc]
+					var movedOn atomic.Bool
+					cl.Move(reg, to)
+					mv("move", "to", to)
+					cl.Lock()
+					cl.Rules = []verifsim.Rule{func(_ *verifsim.Cluster, rs *verifsim.RS, sc *verifsim.ServerConn, req *verifsim.Request, rn []byte) *verifsim.Directive {
+						calls := 0
+						if string(rn) == string(reg.Name) {
+							calls = 1
+						}
+						if mr, ok := req.Param.(*pb.MultiRequest); ok {
+							for _, ra := range mr.GetRegionAction() {
+								if string(ra.GetRegion().GetValue()) == string(reg.Name) {
+									calls += len(ra.GetAction())
+								}
+							}
+						}
+						switch {
+						case req.Method == "Scan" && bytes.HasPrefix(rn, []byte("hbase:meta,")):
+							mv("lookup")
+						case calls > 0 && verifsim.IsProbe(req):
+							if back == 2 && movedOn.CompareAndSwap(false, true) {
+								// the region moves on before the probe is answered: "not serving", another lookup
+								to = hosts[0]
+								cl.Move(reg, to)
+								mv("move", "to", to)
+							}
+							mv("probe", "addr", rs.Addr)
+						case calls > 0:
+							mv("req", "addr", rs.Addr, "n", calls)
+						}
+						// (a request that comes to the wrong server for the 20th time will come for ever, and in no
+						// virtual time at all: the call is ended from here so that the scenario can be judged)
+						if calls > 0 && rs.Addr != to && !verifsim.IsProbe(req) && stale.Add(1) > 20 {
+							if cf := cancelCur.Load(); cf != nil {
+								(*cf)()
+							}
+						}
+						return nil
+					}}
+					cl.Unlock()
+					for n := 0; n < 3; n++ {
+						mark := len(tr.Events())
+						before := len(cl.Execs)
+						ctx, cancel := context.WithTimeout(context.Background(), time.Minute)
+						cancelCur.Store(&cancel)
+						if op == "batch" {
+							mv("start", "n", 2)
+						} else {
+							mv("start", "n", 1)
+						}
+						err := c01doCtx(ctx, c, op, "t", key, key2)
+						cancel()
+						synctest.Wait()
+						mv("ret", "ok", err == nil)
+						if err != nil || stale.Load() > 20 {
+							rep.bad("routed-to-wrong-server", "%s: move %d, %s #%d for key %q ended with %v; the region is online at %s and hbase:meta says so "+
+								"(%d requests for it came to servers that do not host it)", name, mi, op, n, key, err, to, stale.Load())
+							break
+						}
+						for _, e := range cl.Execs[before:] {
+							if e.Table == "t" && (e.Row == string(key) || e.Row == string(key2)) && (e.Region != string(reg.Name) || e.Server != to) {
+								rep.bad("routed-to-wrong-server", "%s: %s key %q executed at region %q on %s; its region is %q on %s", name, op, e.Row, e.Region, e.Server, reg.Name, to)
+							}
+						}
+						if n == 0 {
+							continue
+						}
+						for _, e := range tr.Events()[mark:] { // the new location is known by now
+							if e["ev"] == "req" && e["region"] == string(reg.Name) && e["addr"] != to {
+								rep.bad("routed-to-wrong-server", "%s: after the region had been found at %s, a %v for row %q was still sent to %v",
+									name, to, e["method"], e["row"], e["addr"])
+								break
+							}
+						}
+					}
+				}
+				c.Close()
+				time.Sleep(time.Minute)
+				synctest.Wait()
+				rep.Scenarios++
+				rep.Distinct++
+			})
 		}
 	}
 	// ---- D (real time, outside a bubble: the establisher is held at the connection cache's lock): the layout changes under a
